@@ -39,7 +39,7 @@ def rule_consulted(program, ctx):
         "start_client: every `command == …` dispatch test (and storage call) is reachable only via the edge on which "
         "`rate_limiter.is_limited(remote_addr, message)` is false (or no limiter is configured); the limited edge sends a refusal and continues; "
         "NostrAPI.on_websocket: ws.accept() only after the ACCEPT check",
-        floor=5,
+        floor=2,
     )
     sc = program.func("nostr_relay.web:start_client")
     cfg = cfg_of(sc)
@@ -107,7 +107,7 @@ def rule_record(program, ctx):
         "C18.record",
         "RateLimiter.is_limited: `<deque>.insert/append(<now>)` is reachable only via the false edge of `self.evaluate_rules(rules[command], <same deque>)`; "
         "evaluate_rules itself never inserts; the deque is recent_commands[<scope key>][command]",
-        floor=2,
+        floor=1,
     )
     fn = program.func("nostr_relay.rate_limiter:RateLimiter.is_limited")
     cfg = cfg_of(fn)
@@ -159,7 +159,7 @@ def rule_bounded_ends(program, ctx):
         "C18.ends",
         "orientation: insertion end (insert(0,…)/appendleft = newest first; append = newest last) must agree with every idleness test "
         "`now - <deque>[i] > interval` (i = newest end) in evaluate_rules and cleanup, and evictions must take from the oldest end",
-        floor=3,
+        floor=2,
     )
     isl = program.func("nostr_relay.rate_limiter:RateLimiter.is_limited")
     newest = None
@@ -227,7 +227,7 @@ def rule_precedence(program, ctx):
         "RateLimiter.is_limited: scopes are evaluated in the order (client address, \"global\", \"ip\"); the `return False` that stops after a "
         "specific-address section lies inside `if command in rules:` of that section (an address section without a rule for this command does "
         "not exempt the command from the generic rules)",
-        floor=2,
+        floor=1,
     )
     fn = program.func("nostr_relay.rate_limiter:RateLimiter.is_limited")
     loop = next((l for l in walk_no_nested(fn) if isinstance(l, ast.For) and isinstance(l.iter, ast.Tuple)), None)
@@ -257,7 +257,7 @@ def rule_cleanup(program, ctx):
         "C18.cleanup",
         "start_client's finally calls rate_limiter.cleanup(); cleanup deletes only addresses whose every command deque is empty or idle longer than the "
         "longest ip interval, never the global scope",
-        floor=2,
+        floor=1,
     )
     sc = program.func("nostr_relay.web:start_client")
     outer = next((s for s in sc.body if isinstance(s, ast.Try) and s.finalbody), None)
